@@ -72,6 +72,35 @@ def _may_be_mutable(repo: Repo, mod: Module, fn_node) -> Tuple[bool, str]:
     return False, ""
 
 
+def _handed_to_wrapper(mod: Module, cache_call, pname: str):
+    """[(call, argument)] for every call in the module of the module-level function that contains `cache_call` and has
+    `pname` as a parameter; None when there is no such function or it is passed around as a value."""
+    owner = None
+    for f in mod.tree.body:
+        if isinstance(f, FUNC_TYPES) and any(x is cache_call for x in ast.walk(f)):
+            owner = f
+    if owner is None:
+        return None
+    params = [x.arg for x in owner.args.posonlyargs + owner.args.args]
+    if pname not in params or owner.args.vararg or owner.args.kwarg:
+        return None
+    i = params.index(pname)
+    out = []
+    for n in ast.walk(mod.tree):
+        if isinstance(n, ast.Name) and n.id == owner.name and isinstance(n.ctx, ast.Load):
+            out.append(n)
+    calls_ = [c for c in ast.walk(mod.tree) if isinstance(c, ast.Call) and isinstance(c.func, ast.Name) and c.func.id == owner.name]
+    if len(calls_) != len(out) or not calls_:
+        return None     # used as a value somewhere (or never): cannot enumerate what it wraps
+    res = []
+    for c in calls_:
+        arg = next((k.value for k in c.keywords if k.arg == pname), c.args[i] if i < len(c.args) else None)
+        if arg is None:
+            return None
+        res.append((c, arg))
+    return res
+
+
 def memo_findings(repo: Repo, rels: Iterable[str]) -> List[Tuple[Module, ast.AST, str, str]]:
     """(module, node, key, message) for caches around functions that may return mutable objects."""
     out = []
@@ -96,6 +125,20 @@ def memo_findings(repo: Repo, rels: Iterable[str]) -> List[Tuple[Module, ast.AST
                 fn_node = target if isinstance(target, ast.Lambda) else defs.get(ap(target) or "")
                 if fn_node is None and isinstance(target, ast.Attribute):
                     fn_node = defs.get(target.attr)
+                if fn_node is None and isinstance(target, ast.Name):
+                    # the cached callable is a parameter of a wrapper: decide each callable the module hands to it
+                    handed = _handed_to_wrapper(mod, n, target.id)
+                    if handed is not None:
+                        for call, arg in handed:
+                            f2 = arg if isinstance(arg, ast.Lambda) else defs.get(ap(arg) or "")
+                            if f2 is None:
+                                out.append((mod, call, f"cache around {norm(arg)}", "memoised callable is not analysable"))
+                                continue
+                            mut, why = _may_be_mutable(repo, mod, f2)
+                            if mut:
+                                out.append((mod, call, f"cache around {norm(arg)}", f"memoised function {why}: equal inputs "
+                                            f"share one mutable result"))
+                        continue
                 if fn_node is None:
                     out.append((mod, n, f"cache around {norm(target)}", "memoised callable is not analysable"))
                     continue
